@@ -19,7 +19,7 @@ DOC = {
  "C02.R3": "the enqueue is unique per send body, not in a cycle, and the Ok(()) return is reachable only through it",
  "C02.R4": "= C07.R5: status gate < admission < enqueue, ticket alive across the enqueue",
  "C02.R5": "the TypeId comparison guards delegation in the checked entry; the unchecked send has exactly one caller (that entry); public send paths reach the channel through it",
- "C02.R7": "= C07.R3: `Ok => handled unless the actor exits first` needs the admission CAS to re-test the closed bit on every retry (no admission after the drain marker)",
+ "C02.R7": "= C07.R3 + C07.R8 (a cell drained while it starts up still starts -- start gate and link() admit Draining -- so the messages accepted before the drain are handled, not dropped with an abandoned mailbox): `Ok => handled unless the actor exits first` needs the admission CAS to re-test the closed bit on every retry (no admission after the drain marker)",
  "C02.R8": "= C19.R5 (cluster builds): serialized payloads are decoded under catch_unwind in both runtimes and an undecodable one is dropped, never propagated into the actor",
  "C02.R6": "the message is taken by value and `Message` has no Clone supertrait: a send either enqueues the value or hands it back",
 }
@@ -190,6 +190,7 @@ def r5(run, db):
 
 def r7(run, db):
     c07.r3(run, db)
+    c07.r8(run, db)
 
 
 def r6(run, db):
